@@ -4,6 +4,7 @@ import Lemmas.Offline.Split
 import Lemmas.Offline.Literal
 import Lemmas.Offline.Run
 import Lemmas.Offline.Linear
+import Lemmas.Offline.Frame
 /-!
 # C12 — the offline SQL script has the same effect as the online run
 -/
@@ -689,5 +690,76 @@ example : (match Model.Rev.load exMerge with
       decide (vl = [[.insert "a".toList], [.insert "b".toList], [.delete "a".toList, .update "b".toList "c".toList]]) &&
         midOk [] (vl.map (fun v => { comment := [], body := [], ver := v }))
     | .error _ => false) = true := by decide +kernel
+
+/-! ## the framed script (BEGIN / COMMIT written by `begin_transaction`, including the frame closed after `run_migrations`) -/
+
+open Model.Txn (Cfg emitsBlock)
+
+/-- **C12.frame_transparent.** For every framing C18 allows (`Model.Txn.emitsBlock`: one block around the whole
+script, one block per migration section, or none), every list of sections and every trailer: replaying the framed
+script on a database with transactions leaves durably exactly what replaying the bare statements leaves, and no
+transaction open (or both replays raise). -/
+theorem frame_transparent (cfg : Cfg) (secs : List (List Stmt)) (tr : List Stmt) (db : DB) :
+    execF (framed cfg secs tr) ⟨db, none⟩ = (execAll (secs.flatten ++ tr) db).map (fun d => ⟨d, none⟩) :=
+  execF_framed cfg secs tr db
+
+/-- **C12.unclosed_frame_loses.** What an incomplete script loses (seed C12-m: the trailing `COMMIT;` written after
+`run_migrations` returned never reached the buffer): a `BEGIN` that no `COMMIT` closes makes the whole replay
+non-durable - the database is what it was. -/
+theorem unclosed_frame_loses (l : List Stmt) (db w : DB) (h : execAll l db = some w) :
+    durable (execF (FStmt.begin :: stmtsF l) ⟨db, none⟩) = some db := by
+  have := execF_open l [] db db
+  simp only [List.append_nil] at this
+  simp [execF, this, h, durable]
+
+/-- the text script executes as the statements of its sections (first half of `same_effect_partial`) -/
+theorem script_as_stmts (q : Str → Bool) (hq : BareSafe q) (start : List Str) (steps : List Step) (db₀ : DB)
+    (hsteps : steps.all (stepOk q) = true) :
+    (offline q start steps).bind (fun script => execScript q script db₀) =
+      (offlineStmts q start steps).bind (fun l => execAll l db₀) := by
+  have := Reads_offline q hq (vtOk q hq) steps start hsteps
+  simp only [offline]
+  cases hi : offlineItems q start steps <;> cases hs : offlineStmts q start steps <;> simp only [hi, hs] at this
+  all_goals first
+    | rfl
+    | exact this.elim
+    | simp [exec_script_eq q _ _ this db₀]
+
+/-- **C12.same_effect_framed.** The statement of `same_effect_partial` for the WHOLE script as `--sql` writes it under
+any `transactional_ddl` / `transaction_per_migration` setting: sections (CREATE of the version table, migration body,
+version statements) in the blocks `begin_transaction` opens and closes - including the enclosing block that is closed
+only after `run_migrations` has returned - and the trailing DROP of the version table.  What is durable after replaying
+the framed script equals the result of the online run (or both raise). -/
+theorem same_effect_framed (cfg : Cfg) (q : Str → Bool) (hq : BareSafe q) (start : List Str) (steps : List Step) (db₀ : DB)
+    (hsteps : steps.all (stepOk q) = true)
+    (hdb : db₀.version = if start.isEmpty then none else some start)
+    (hne : start.isEmpty = true → steps ≠ [])
+    (hmid : midOk start steps = true) :
+    sameOutcome
+      ((offlineSections q start steps).bind (fun p => durable (execF (framed cfg p.1 p.2) ⟨db₀, none⟩)))
+      (online q steps db₀) := by
+  have h := same_effect_partial q hq start steps db₀ hsteps hdb hne hmid
+  rw [script_as_stmts q hq start steps db₀ hsteps, ← offlineSections_flat q steps start] at h
+  have e : (offlineSections q start steps).bind (fun p => durable (execF (framed cfg p.1 p.2) ⟨db₀, none⟩)) =
+      ((offlineSections q start steps).map (fun p => p.1.flatten ++ p.2)).bind (fun l => execAll l db₀) := by
+    cases offlineSections q start steps with
+    | none => rfl
+    | some p =>
+      simp only [Option.bind_some, Option.map_some, frame_transparent, durable]
+      cases execAll (p.1.flatten ++ p.2) db₀ <;> rfl
+  rw [e]
+  exact h
+
+/-- non-vacuity: a two-section script in each of the three framings replays to the same durable database, and the
+    same script without its closing COMMIT leaves nothing -/
+def exSecs : List (List Stmt) :=
+  [[.vtCreate, .createTable ['t'] [⟨['i'], .integer, true⟩], .vtInsert ['a']], [.insert ['t'] [['i']] [.int 1], .vtUpdate ['a'] ['b']]]
+
+example : [({ tddl := true, perMig := false } : Cfg), { tddl := true, perMig := true }, { tddl := false, perMig := false }].all (fun cfg =>
+    durable (execF (framed cfg exSecs []) ⟨DB.empty, none⟩) == execAll exSecs.flatten DB.empty) = true := by decide +kernel
+example : (execAll exSecs.flatten DB.empty).isSome = true ∧
+    durable (execF (FStmt.begin :: stmtsF exSecs.flatten) ⟨DB.empty, none⟩) = some DB.empty := by decide +kernel
+example : framed { tddl := true, perMig := false } [[.vtDrop]] [] = [.begin, .stmt .vtDrop, .commit] ∧
+    framed { tddl := true, perMig := true } [[.vtCreate]] [.vtDrop] = [.begin, .stmt .vtCreate, .commit, .stmt .vtDrop] := by decide
 
 end C12
